@@ -40,6 +40,21 @@ BSubR(a, b, br) ==
        IF t < 0 THEN << t + BB >> \o BSubR(Tail(a), bt, 1) ELSE << t >> \o BSubR(Tail(a), bt, 0)
 BAbsDiff(a, b) == IF BCmp(a, b) >= 0 THEN BNorm(BSubR(a, b, 0)) ELSE BNorm(BSubR(b, a, 0))
 
+(***************************************************************************)
+(* A float64 reported exactly as m = << sign, e, l0, l1, l2, l3, l4 >>     *)
+(* (value = (-1)^sign * (sum l_i 4096^i) * 2^e) against the rational       *)
+(* (ka * 2^-16) * D / N :   | m * N - a * D |  <=  2^-40 * | a * D |.      *)
+(* Dyadic(N, D): N / D is a binary fraction of few bits (a float32).       *)
+(***************************************************************************)
+Dyadic(N, D) == \E k \in 0..12 : (N * Pow2(k)) % D = 0
+LinNear(m, ka, N, D) ==
+  IF ka = 0 THEN m[3] = 0 /\ m[4] = 0 /\ m[5] = 0 /\ m[6] = 0 /\ m[7] = 0
+  ELSE /\ m[1] = (IF ka < 0 THEN 1 ELSE 0)
+       /\ m[2] < -16 /\ m[2] > -200
+       /\ LET L == BMul(BNorm(<< m[3], m[4], m[5], m[6], m[7] >>), N)
+              R == BShl(BMul(BOf(Abs(ka)), D), (-16) - m[2]) IN
+          BCmp(BAbsDiff(L, R), BShr(R, 40)) <= 0
+
 ASSUME BigSelfTest ==
   /\ BOf(0) = << >> /\ BOf(4095) = << 4095 >> /\ BOf(4096) = << 0, 1 >>
   /\ BMul(BOf(1000000), 1000) = << 1000000000 % 4096, (1000000000 \div 4096) % 4096, 1000000000 \div 16777216 >>
